@@ -1,0 +1,68 @@
+//go:build verif
+
+package store
+
+import (
+	"sort"
+
+	"github.com/feichai0017/NoKV/pb"
+	myraft "github.com/feichai0017/NoKV/raft"
+)
+
+// Verification-only accessors for the proposal pipeline (build tag `verif`). They expose
+// the unexported bookkeeping of command_pipeline.go to the out-of-tree cluster harness and
+// add no behaviour: every function forwards to the code the store itself runs.
+
+// VerifProposalWaiter is a handle on a registered proposal's result channel.
+type VerifProposalWaiter struct{ prop *commandProposal }
+
+// Poll reports the proposal's result without blocking: done=false while nothing was
+// delivered; closed=true when the channel was closed after its single result was taken.
+func (w *VerifProposalWaiter) Poll() (resp *pb.RaftCmdResponse, err error, done, closed bool) {
+	if w == nil || w.prop == nil {
+		return nil, nil, false, false
+	}
+	select {
+	case r, ok := <-w.prop.ch:
+		if !ok {
+			return nil, nil, false, true
+		}
+		return r.resp, r.err, true, false
+	default:
+		return nil, nil, false, false
+	}
+}
+
+// VerifNextProposalID is commandPipeline.nextProposalID.
+func (s *Store) VerifNextProposalID() uint64 { return s.command.nextProposalID() }
+
+// VerifRegisterProposal is commandPipeline.registerProposal.
+func (s *Store) VerifRegisterProposal(id uint64) (*VerifProposalWaiter, error) {
+	prop, err := s.command.registerProposal(id)
+	if err != nil || prop == nil {
+		return nil, err
+	}
+	return &VerifProposalWaiter{prop: prop}, nil
+}
+
+// VerifRemoveProposal is commandPipeline.removeProposal (the timeout path of ProposeCommand).
+func (s *Store) VerifRemoveProposal(id uint64) { s.command.removeProposal(id) }
+
+// VerifApplyEntries is Store.applyEntries, the function every peer of the store calls with
+// its committed entries.
+func (s *Store) VerifApplyEntries(entries []myraft.Entry) error { return s.applyEntries(entries) }
+
+// VerifPipelineState returns the id counter and the sorted ids of the waiting proposals.
+func (s *Store) VerifPipelineState() (seq uint64, pending []uint64) {
+	cp := s.command
+	if cp == nil {
+		return 0, nil
+	}
+	cp.mu.Lock()
+	defer cp.mu.Unlock()
+	for id := range cp.proposals {
+		pending = append(pending, id)
+	}
+	sort.Slice(pending, func(i, j int) bool { return pending[i] < pending[j] })
+	return cp.seq, pending
+}
